@@ -439,6 +439,18 @@ def gen_config(rng, tbl, max_ctx=4, max_tests=3, window_layout=None, fault_kinds
                 continue
             c["entries"].insert(rng.randint(0, len(c["entries"])), e)
             nf += 1
+    if "F5" in fault_kinds and rng.chance(0.35):
+        # a "dead" context: every entry names a stream the source does not have
+        taken = {None if c["window"] is None else (c["window"].get("starting"), c["window"].get("ending")) for c in contexts}
+        for w in _mixed(rng, boundary_points(rng, tbl["times"]), 4):
+            if (w.get("starting"), w.get("ending")) not in taken:
+                dead = []
+                for ghost in rng.sample(("ghost", "v9", "V1"), rng.randint(1, 2)):
+                    e = gen_healthy_entry(rng, ghost, tbl)
+                    e["role"] = "F5"
+                    dead.append(e)
+                contexts.insert(rng.randint(0, len(contexts)), {"window": w, "entries": dead, "dead": True})
+                break
     carrier = rng.pick(CARRIERS)
     return {
         "contexts": contexts,
